@@ -22,7 +22,13 @@ type numeral struct {
 	first    byte // first mantissa digit
 	last     byte // last mantissa digit
 	secondInt byte // second integer digit if any (leading-zero test)
+	expByte  byte
+	lead     int // leading zero digits of the mantissa (before the first non-zero digit)
+	nonzero  bool
 }
+
+// refBarePoint: accept "12." (the '#' flag of fmt keeps the decimal point)
+var refBarePoint bool
 
 func refNumeral(b []byte) (r numeral) {
 	n := len(b)
@@ -38,6 +44,13 @@ func refNumeral(b []byte) (r numeral) {
 	start := i
 	for i < n && isDig(b[i]) {
 		r.mant = r.mant.Mul(zi(10)).Add(zu(uint64(b[i] - '0')))
+		if !r.nonzero {
+			if b[i] == '0' {
+				r.lead++
+			} else {
+				r.nonzero = true
+			}
+		}
 		if i == start {
 			r.first = b[i]
 		} else if i == start+1 {
@@ -55,16 +68,24 @@ func refNumeral(b []byte) (r numeral) {
 		i++
 		for i < n && isDig(b[i]) {
 			r.mant = r.mant.Mul(zi(10)).Add(zu(uint64(b[i] - '0')))
+			if !r.nonzero {
+				if b[i] == '0' {
+					r.lead++
+				} else {
+					r.nonzero = true
+				}
+			}
 			r.last = b[i]
 			r.nfrac++
 			i++
 		}
-		if r.nfrac == 0 {
+		if r.nfrac == 0 && !refBarePoint {
 			return
 		}
 	}
 	if i < n && (b[i] == 'e' || b[i] == 'E') {
 		r.hasExp = true
+		r.expByte = b[i]
 		i++
 		if i < n && (b[i] == '+' || b[i] == '-') {
 			r.expSign = true
@@ -84,40 +105,25 @@ func refNumeral(b []byte) (r numeral) {
 	return
 }
 
-// ndCoefficient: a coefficient with exactly L decimal digits (L in 1..35), not above 5*2^111-1.
-func ndCoefficient(L int) (uint128, Z) {
-	sig := nd128("c")
-	N := z128(sig)
-	assume(N.Ge(zpow10(L-1)) && N.Lt(zpow10(L)) && N.Le(zMAX()))
-	return sig, N
-}
-
-// checkDenotesText: value(out) == N x 10^e exactly.  For a symbolic exponent the identity is split into
-// the digit part (mantissa times a power of ten equals N) and the exponent part (linear).
-func checkDenotesText(out []byte, N Z, L int, e Z) (r numeral) {
+// checkDenotesText: value(out) == M x 10^ez exactly, where M has exactly n digits and M mod 10 != 0.
+// The printed mantissa (without its leading zeros) has t digits: it must be M followed by t-n zeros, and the
+// exponents must agree:  mant x 10^(x - nfrac) == M x 10^ez  <=>  mant == M x 10^(t-n)  and  x - nfrac + (t-n) == ez.
+func checkDenotesText(out []byte, M Z, n int, ez Z) (r numeral) {
 	r = refNumeral(out)
 	check(r.ok, "C06: output is not a plain decimal numeral")
 	if !r.ok {
 		return
 	}
-	m := r.nint + r.nfrac // mantissa digits printed
-	// N has exactly L digits.  Printed mantissa has m digits (possibly with leading zeros in positional form).
-	// value = mant x 10^(x - nfrac), x = signed exponent (0 if absent)
-	x := zsigned(r.expNeg, r.exp)
-	if m >= L {
-		// positional with leading zeros, or all digits kept plus padding zeros: mant == N x 10^(k), k >= 0
-		// find k from the exponents: mant x 10^(x-nfrac) == N x 10^e  ->  x - nfrac + k' ... use k = (e - (x - nfrac)) which must be >= 0
-		k := concretize(e.Sub(x).Add(zi(int64(r.nfrac))).Int())
-		if k >= 0 {
-			check(k <= 6200 && r.mant.Eq(N.Mul(zpow10(k))), "C06: printed numeral does not denote d exactly")
-		} else {
-			check(r.mant.Mul(zpow10(-k)).Eq(N), "C06: printed numeral does not denote d exactly")
-		}
+	t := r.nint + r.nfrac - r.lead
+	k2 := t - n
+	check(k2 >= 0, "C06: printed numeral has fewer significant digits than the value")
+	if k2 < 0 {
+		r.ok = false
 		return
 	}
-	// fewer digits than L: trailing zeros of N were moved into the exponent: N == mant x 10^(L-m) and exponents agree
-	check(N.Eq(r.mant.Mul(zpow10(L-m))), "C06: printed digits are not the coefficient's digits")
-	check(x.Sub(zi(int64(r.nfrac))).Eq(e.Add(zi(int64(L-m)))), "C06: printed exponent does not match the value")
+	x := zsigned(r.expNeg, r.exp)
+	check(k2 <= 6200 && r.mant.Eq(M.Mul(zpow10(k2))), "C06: printed digits are not the coefficient's digits")
+	check(x.Sub(zi(int64(r.nfrac))).Add(zi(int64(k2))).Eq(ez), "C06: printed exponent does not match the value")
 	return
 }
 
@@ -138,11 +144,83 @@ func layoutChecks(r numeral, isJSON bool) {
 	}
 }
 
-// vh_c06_text: which: 0 MarshalText, 1 String, 2 MarshalJSON.
-// L digits; adj: decimal exponent of the leading digit: a concrete value in -8..21, or 100 (every adj below the
-// positional window), 101 (every adj above it).
-func vh_c06_text(which, L, adj int) {
-	sig, N := ndCoefficient(L)
+// verifFmtState is a minimal fmt.State (flags, width, precision, output buffer).
+type verifFmtState struct {
+	buf                             []byte
+	wid, prec                       int
+	hasWid, hasPrec                 bool
+	plus, minus, sharp, space, zero bool
+}
+
+func (s *verifFmtState) Write(b []byte) (int, error) {
+	s.buf = append(s.buf, b...)
+	return len(b), nil
+}
+func (s *verifFmtState) Width() (int, bool)     { return s.wid, s.hasWid }
+func (s *verifFmtState) Precision() (int, bool) { return s.prec, s.hasPrec }
+func (s *verifFmtState) Flag(c int) bool {
+	switch c {
+	case '+':
+		return s.plus
+	case '-':
+		return s.minus
+	case '#':
+		return s.sharp
+	case ' ':
+		return s.space
+	case '0':
+		return s.zero
+	}
+	return false
+}
+
+// c06Render: the default-text entry points.
+// which: 0 MarshalText, 1 String, 2 MarshalJSON, 3 Append(nil,d,'g',-1), 4 Append(buf,d,'e',-1), 5 Append(nil,d,'f',-1),
+// 6 d.Append(buf,"v"), 7 d.Format(State,'v'), 8 Format(d,'G',-1), 9 Format(d,'E',-1), 10 d.Append(nil,"g")... (same as %g without precision)
+func c06Render(which int, d Decimal) (out []byte, err error, eByte byte) {
+	eByte = 'e'
+	switch which {
+	case 0:
+		out, err = d.MarshalText()
+	case 1:
+		out = []byte(d.String())
+	case 2:
+		out, err = d.MarshalJSON()
+	case 3:
+		out = Append(nil, d, 'g', -1)
+	case 4:
+		pre := []byte{'x', 'y'}
+		res := Append(pre, d, 'e', -1)
+		check(len(res) >= 2 && res[0] == 'x' && res[1] == 'y', "C06: Append must keep the existing contents of the buffer")
+		out = res[2:]
+	case 5:
+		out = Append(nil, d, 'f', -1)
+	case 6:
+		pre := make([]byte, 1, 80)
+		pre[0] = 'x'
+		res := d.Append(pre, "v")
+		check(len(res) >= 1 && res[0] == 'x', "C06: Decimal.Append must keep the existing contents of the buffer")
+		out = res[1:]
+	case 7:
+		st := &verifFmtState{}
+		d.Format(st, 'v')
+		out = st.buf
+	case 8:
+		out = []byte(Format(d, 'G', -1))
+		eByte = 'E'
+	case 9:
+		out = []byte(Format(d, 'E', -1))
+		eByte = 'E'
+	default:
+		out = nil
+	}
+	return
+}
+
+// vh_c06_text: L digits of which z trailing zeros; adj: decimal exponent of the leading digit: a concrete value
+// in -8..21, or 100 (every adj below the positional window), 101 (every adj above it).
+func vh_c06_text(which, L, z, adj int) {
+	sig, N := ndCoefficientLZ(L, z)
 	neg := nondetBool("neg")
 	lowPos, highPos := -4, 5
 	if which == 2 {
@@ -150,60 +228,91 @@ func vh_c06_text(which, L, adj int) {
 	}
 	var exp16 int16
 	var e Z
-	switch adj {
-	case 100:
+	if adj >= 100 {
+		// exponent classes: 100/101 everything below/above the positional window; 102..105 adj in [-9,low), [-99,-10],
+		// [-999,-100], [.., -1000]; 106..109 adj in (high,9], [10,99], [100,999], [1000,..]
+		lo, hi := -7000, 7000
+		switch adj {
+		case 100:
+			hi = lowPos - 1
+		case 101:
+			lo = highPos + 1
+		case 102:
+			lo, hi = -9, lowPos-1
+		case 103:
+			lo, hi = -99, -10
+		case 104:
+			lo, hi = -999, -100
+		case 105:
+			hi = -1000
+		case 106:
+			lo, hi = highPos+1, 9
+		case 107:
+			lo, hi = 10, 99
+		case 108:
+			lo, hi = 100, 999
+		case 109:
+			lo = 1000
+		}
+		if hi >= lowPos && hi <= highPos {
+			hi = lowPos - 1
+		}
+		if lo >= lowPos && lo <= highPos {
+			lo = highPos + 1
+		}
 		exp16 = nondetI16("exp")
-		assume(exp16 >= 0 && exp16 <= maxBiasedExponent && int(exp16)-exponentBias+L-1 < lowPos)
+		a := int(exp16) - exponentBias + L - 1
+		assume(exp16 >= 0 && exp16 <= maxBiasedExponent && a >= lo && a <= hi)
 		e = zi(int64(exp16) - exponentBias)
-	case 101:
-		exp16 = nondetI16("exp")
-		assume(exp16 >= 0 && exp16 <= maxBiasedExponent && int(exp16)-exponentBias+L-1 > highPos)
-		e = zi(int64(exp16) - exponentBias)
-	default:
+	} else {
 		ev := adj - (L - 1)
 		assume(ev+exponentBias >= 0 && ev+exponentBias <= maxBiasedExponent)
 		exp16 = int16(ev + exponentBias)
 		e = zi(int64(ev))
 	}
 	d := compose(neg, sig, exp16)
-	var out []byte
-	var err error
-	switch which {
-	case 0:
-		out, err = d.MarshalText()
-	case 1:
-		out = []byte(d.String())
-	default:
-		out, err = d.MarshalJSON()
-	}
+	out, err, eByte := c06Render(which, d)
 	check(err == nil, "C06: marshalling a finite value failed")
 	for i := 0; i < len(out) && i < 48; i++ {
 		observe("o", uint64(out[i]))
 	}
-	r := checkDenotesText(out, N, L, e)
+	r := checkDenotesText(out, N.Div(zpow10(z)), L-z, e.Add(zi(int64(z))))
 	if !r.ok {
 		return
 	}
 	check(r.neg == neg, "C06: sign of the printed numeral differs")
 	layoutChecks(r, which == 2)
 	// form selection
-	wantExp := adj == 100 || adj == 101 || (adj != 100 && adj != 101 && (adj < lowPos || adj > highPos))
+	wantExp := adj >= 100 || adj < lowPos || adj > highPos
+	if which == 4 || which == 9 {
+		wantExp = true
+	} else if which == 5 {
+		wantExp = false
+	}
 	check(r.hasExp == wantExp, "C06: positional / exponent form chosen against the documented thresholds")
+	if r.hasExp {
+		check(r.expByte == eByte, "C06: exponent letter")
+	}
 	if which == 2 {
-		// RFC 8259: -? (0 | [1-9][0-9]*) (. [0-9]+)? ([eE] [+-]? [0-9]+)?
-		check(r.nint == 1 || r.first != '0', "C13: JSON numbers must not have leading zeros")
+		ok, jneg, _, _, _ := refJSONNumber(out)
+		check(ok && jneg == neg, "C13: MarshalJSON output is not a JSON number (RFC 8259)")
+		reach("C13:marshal")
 	}
 	reach("C06:text")
 	// round trip through the real parser
 	var back Decimal
 	var perr error
 	switch which {
-	case 0:
+	case 0, 3, 4, 8:
 		perr = back.UnmarshalText(out)
-	case 1:
-		back, perr = Parse(string(out))
-	default:
+	case 2:
 		perr = back.UnmarshalJSON(out)
+	case 6, 7, 9:
+		st := &verifScanState{buf: out}
+		perr = back.Scan(st, 'v')
+		check(perr != nil || st.pos == len(out), "C06: Scan did not consume the whole numeral")
+	default:
+		back, perr = Parse(string(out))
 	}
 	check(perr == nil, "C06: the produced text is rejected by the parser")
 	if perr == nil {
